@@ -356,6 +356,33 @@ theorem derivative_outside {o : Interp} (h : WF o) {t : ℚ} (ht : t < xfirst o 
       simpa only [plt, Bool.or_eq_true, decide_eq_true_eq] using ht
     rw [if_pos this]
 
+/-- Abscissae supplied in increasing order are kept as they are. -/
+theorem set_sorted_keeps_x {tol : ℚ} (h0 : 0 < tol) (h1 : tol ≤ 1) {x y : List ℚ} {o : Interp}
+    (hs : x.Pairwise (· < ·)) (hl : x.length = y.length)
+    (h : GenQ.Interpolation.set tol [.list x, .list y] = .ok o) : o.x = x := by
+  rw [set_two_lists] at h
+  split_ifs at h with h2
+  rw [← hl, Nat.min_self, List.take_of_length_le (le_refl _), List.take_of_length_le (le_of_eq hl.symm)] at h
+  rw [← hl, Nat.min_self] at h2
+  obtain ⟨_, _, _, he, _⟩ := finish_ok h0 h1 hl (by omega) h
+  rw [order_points_sorted x y hl hs] at he
+  exact (Prod.mk.inj he).1
+
+/-- The times `-h, …, n-1-h` of the conjunction helpers. -/
+def times (n : ℕ) (half : ℤ) : List ℚ := (List.range n).map (fun (i : ℕ) => (((i : ℤ) - half : ℤ) : ℚ))
+
+theorem times_sorted (n : ℕ) (half : ℤ) : (times n half).Pairwise (· < ·) := by
+  unfold times
+  rw [List.pairwise_map]
+  apply (List.pairwise_lt_range (n := n)).imp
+  intro a b hab
+  exact_mod_cast (by omega : (a : ℤ) - half < (b : ℤ) - half)
+
+theorem nodes_times {n : ℕ} (half : ℤ) {i : ℕ} (hi : i < n) : nodes (times n half) i = (((i : ℤ) - half : ℤ) : ℚ) := by
+  unfold nodes times
+  rw [List.getD_eq_getElem _ 0 (by simpa using hi)]
+  simp
+
 /-- The positional arguments `x0, y0, x1, y1, …` of the n-argument form. -/
 def flat (pts : List (ℚ × ℚ)) : List PyArg := pts.flatMap (fun p => [.num p.1, .num p.2])
 
